@@ -21,7 +21,7 @@ def restored_set(prog: Program, rep: Report) -> None:
     rule = "R08.1"
     from ..program import inline_helpers
 
-    fi = inline_helpers(prog, prog.func("warm_start.warm_start"))
+    fi = prog.lview("warm_start.warm_start")
     wv = [n for n in walk_no_nested(fi.node) if isinstance(n, (ast.Assign, ast.AnnAssign)) and unparse(n.targets[0] if isinstance(n, ast.Assign) else n.target) == "wvars"]
     ok = False
     mand = {"pid", "X", "Y", "Z", "alive", "active"}
@@ -113,7 +113,7 @@ def warm_start_facts(prog: Program) -> dict:
 
     from ..program import inline_helpers
 
-    fi = inline_helpers(prog, prog.func("warm_start.warm_start"))
+    fi = prog.lview("warm_start.warm_start")
     # the dataset handle: name bound to Dataset(...)
     handle = None
     for n in ast.walk(fi.node):
@@ -151,7 +151,7 @@ def warm_start_facts(prog: Program) -> dict:
 
 def npid_provenance(prog: Program, rep: Report) -> None:
     rule = "R08.2"
-    fi = prog.func("warm_start.warm_start")
+    fi = prog.lview("warm_start.warm_start")
     st = [n for n in walk_no_nested(fi.node) if isinstance(n, ast.Assign) and unparse(n.targets[0]) == "state.npid"]
     if len(st) != 1:
         rep.bad(rule, fi.qual, "state.npid", f"the release counter is restored {len(st)} times (must be exactly once)", fi.loc())
